@@ -2,7 +2,13 @@
 //! implementation-only oracle (bit-serial reference) used by the failing-input search.
 use crate::util::*;
 use rand::RngCore;
-use sl_oblivious::verif_hooks::verif_gf128_mul as gf_mul;
+use sl_oblivious::verif_hooks::verif_gf128_mul as gf_mul_real;
+
+/// the real function, with the operands announced first (an uncaught panic is then reported with them)
+fn gf_mul(a: &[u8; 16], b: &[u8; 16]) -> [u8; 16] {
+    crate::util::note_case(format!("binary_field_multiply_gf_2_128 a={} b={}", hex::encode(a), hex::encode(b)));
+    gf_mul_real(a, b)
+}
 use std::io::Write;
 
 /// Independent bit-serial reference: shift-and-add in GF(2)[x]/(x^128+x^7+x^2+x+1).
